@@ -1438,7 +1438,7 @@ class C09(core.Check):
         "equivariance of every transcribed centre rule (all entity kinds but EdgeData's constant centre) under the "
         "entity schema, which is regenerated from the source's `parts` / `center` definitions; copy independence; "
         "equivariance of the Origin/Angle arc constructions with square roots as witnesses. Spline interpolation, "
-        "closest-parameter search of OnCurve edges, float rounding, shear on whole trees (points / arrays are modelled), and the centres of Oval / spline rings / "
+        "closest-parameter search of OnCurve edges, float rounding, and the centres of "
         "interpolated curves (observed values) are checked by the oracle only"
     )
 
